@@ -93,8 +93,11 @@ fn parse_record_with_schema<R: Read + Seek>(
 }
 
 /// Parse a record without a schema in parallel
-fn parse_record_raw<R: Read + Seek>(cursor: &mut R, header: &DbcHeader) -> Result<Record> {
-    let mut values = Vec::with_capacity(header.field_count as usize);
+fn parse_record_raw(cursor: &mut Cursor<&[u8]>, header: &DbcHeader) -> Result<Record> {
+    let mut values = Vec::with_capacity(crate::field_parser::raw_record_capacity(
+        cursor,
+        header.field_count,
+    )?);
 
     for _ in 0..header.field_count {
         // Without a schema, we assume all fields are 32-bit integers
